@@ -46,6 +46,15 @@ def variants(evt, state):
     if evt in EVENT_PDU:
         t = EVENT_PDU[evt]
         out = [{'origin': 'peer', 'spec': CANON[t]}]
+        if t in (1, 2):
+            # Protocol-version is a bit mask of which only bit 0 is tested (PS3.8 9.3.2/9.3.3): a peer that also
+            # announces later versions is as acceptable as one that announces version 1 alone
+            out += [{'origin': 'peer', 'spec': dict(CANON[t], ver=v)} for v in (0x0003, 0x8001, 0xFFFF)]
+        # reserved fields are not tested on receipt
+        res = {k: (0x2A if k in ('r', 'r1') else 0x1234 if k == 'r2' and t in (1, 2) else 0x2A2A2A2A if k == 'r2' and t in (5, 6)
+                   else 0x2A) for k in CANON[t] if k in ('r', 'r1', 'r2') or (k == 'r3' and t == 7)}
+        if res:
+            out.append({'origin': 'peer', 'spec': dict(CANON[t], **res)})
         if t == 4:
             out.append({'origin': 'peer', 'spec': PARTIAL_PDATA})
         if t == 7:
